@@ -8,8 +8,8 @@ use futures_intrusive::verif::Snapshot;
 /// What the world knows about one queue of the snapshot.
 pub struct QueueKind {
     pub name: &'static str,
-    /// the future kind (Slot.kind) whose nodes may be in this queue
-    pub kind: u8,
+    /// the future kinds (Slot.kind) whose nodes may be in this queue
+    pub kinds: &'static [u8],
 }
 
 /// Result of resolving a node address: (slot id, future kind)
@@ -29,7 +29,7 @@ pub fn c01_membership(env: &mut Env, snap: &Snapshot, resolve: Resolve<'_>, kind
                 }
                 Some((id, kind)) => {
                     if let Some(qk) = qk {
-                        if qk.kind != kind {
+                        if !qk.kinds.contains(&kind) {
                             env.fail("C01", "foreign-node", format!("queue `{}` contains future #{} of the wrong kind", q.name, id), true);
                         }
                     }
@@ -58,7 +58,7 @@ pub fn c01_membership(env: &mut Env, snap: &Snapshot, resolve: Resolve<'_>, kind
     for i in 0..env.live.len() {
         let id = env.live[i];
         let s = env.slots[id];
-        if s.st == St::Pending && !s.uw() && !in_queue[id] && kinds.iter().any(|k| k.kind == s.kind) {
+        if s.st == St::Pending && !s.uw() && !in_queue[id] && kinds.iter().any(|k| k.kinds.contains(&s.kind)) {
             env.fail("C01", "waiting-not-queued", format!("future #{} is pending and un-woken but not in any wait queue", id), false);
         }
     }
